@@ -57,16 +57,20 @@ def Selector.noLeadingCombinator (s : Selector) : Opt Selector :=
 def SelSet.noLeadingCombinator (s : SelSet) : Opt SelSet :=
   Opt.collectPos (s.map Selector.noLeadingCombinator)
 
-/-- Deviation flags of the placeholder filter; `phSpec` = all off. -/
+/-- Deviation flags of the placeholder filter; `phSpec` = all off.  The deviation was repaired
+in /repo (27c3ca1): the code today is `phSpec` = `phAsis`; `phOld` is the code before. -/
 structure PhQuirks where
   /-- compound.rs `no_placeholder`: when dropping `:not(%p)` leaves a compound without any
-  simple selector, the code keeps the empty compound (`a :not(%p)` is written `a `, which
+  simple selector, the old code kept the empty compound (`a :not(%p)` is written `a `, which
   selects `a`); selector semantics require the universal selector (`a *`). -/
   notLeavesEmptyCompound : Bool := false
   deriving Repr, DecidableEq
 
 def phSpec : PhQuirks := {}
-def phAsis : PhQuirks := { notLeavesEmptyCompound := true }
+/-- the code as it is today -/
+def phAsis : PhQuirks := {}
+/-- the code before 27c3ca1 -/
+def phOld : PhQuirks := { notLeavesEmptyCompound := true }
 
 /-- what a compound that lost all its simple selectors stands for -/
 def Compound.orUniversal (q : PhQuirks) (c : Compound) : Compound :=
